@@ -123,6 +123,12 @@ func (g *Gen) RegSet(cfg GenCfg) []*Reg {
 			reg.Name, reg.Group = pickIdent(ty, true)
 			if g.p(cfg.PAs) {
 				reg.As = []int{16 + g.n(4)}
+				if g.p(0.4) {
+					a := 16 + g.n(4)
+					if a != reg.As[0] {
+						reg.As = append(reg.As, a)
+					}
+				}
 			}
 		case x < cfg.PInst+cfg.PMulti:
 			k := 2 + g.n(2)
@@ -143,6 +149,10 @@ func (g *Gen) RegSet(cfg GenCfg) []*Reg {
 					d = g.concrete(cfg)
 				}
 				reg.Dyn = append(reg.Dyn, d)
+			}
+			if g.p(0.35) {
+				// Name applies to the first return value only, Group to every one
+				reg.Name, reg.Group = pickIdent(0, true)
 			}
 		case x < cfg.PInst+cfg.PMulti+cfg.PResult:
 			k := 1 + g.n(3)
